@@ -54,6 +54,28 @@ def nontrivial(op, ans):
     return not (ans == 'bad-op')
 
 
+def both_bad_op(c, allowed):
+    """Class-1 guard: an op line that BOTH sides answer with bad-op is a broken tie, not agreement, unless it is
+    one of the deliberately malformed lines (or a '#' comment line of the chain run)."""
+    try:
+        ops = open(c['paths']['ops'], errors='replace').read().split('\n')
+        obs = open(c['paths']['obs'], errors='replace').read().split('\n')
+        mod = open(c['paths']['mod'], errors='replace').read().split('\n')
+    except Exception:
+        return
+    n = 0
+    first = None
+    for o, x, y in zip(ops, obs, mod):
+        if x == 'bad-op' and y == 'bad-op' and not o.startswith('#'):
+            n += 1
+            if n > allowed and first is None:
+                first = o
+    c['both_bad_op'] = n
+    if n != allowed:
+        c['ok'] = False
+        c.setdefault('errors', []).append('%d op lines answered bad-op by implementation AND model (expected %d deliberately malformed ones): e.g. %r' % (n, allowed, first))
+
+
 def gen(ctx):
     rc, so, se = vlib.go_run_gen(ctx, 'c17facts', ['repo=' + ctx.repo])
     if rc != 0:
@@ -66,13 +88,16 @@ def correspond(ctx):
     n = 1200 if ctx.thorough() else 60
     c = vlib.correspond(ctx, 'c17', 'C17', ['scripts=%d' % n], canon=canon, timeout=2400, nontrivial=nontrivial)
     c['name'] = 'pool-scripts'
+    both_bad_op(c, 12)
     # TxPool.Clear() re-binds the pool's store for the rest of the process: a process of its own
     c2 = vlib.correspond(ctx, 'c17', 'C17', ['clear=1'], canon=canon, timeout=600, nontrivial=nontrivial)
     c2['name'] = 'pool-clear'
+    both_bad_op(c2, 0)
     # the pool driven by the real block chain (C05 hooks): reorg histories through AddBlockOnChain
     c3 = vlib.correspond(ctx, 'c17', 'C17', ['mode=chain', 'histories=%d' % (25 if ctx.thorough() else 4)], canon=canon,
                          timeout=1200, nontrivial=lambda o, x: not o.startswith('#'))
     c3['name'] = 'chain-reorg'
+    both_bad_op(c3, 0)
     return [c, c2, c3]
     # a panic of the real pool on a well-formed history is a property-level fact by itself;
     # PANIC answers the model also gives (Less on equal hashes called directly, receipts without
